@@ -42,16 +42,16 @@ var props = []Prop{
 	},
 	{
 		ID: "C01",
-		Harnesses: []H{{Pkg: "ecs", Fn: "HC01_Step"}, {Pkg: "ecs", Fn: "HC01_Step", Tags: "tiny", Tier: "thorough"}, {Pkg: "ecs", Fn: "HC08_Batch"}, {Pkg: "ecs", Fn: "HC01_TwoSmall"}, {Pkg: "ecs", Fn: "HDeep"}, {Pkg: "ecs", Fn: "HDeep", Tags: "tiny"}, {Pkg: "ecs", Fn: "HManyTables"}, {Pkg: "ecs", Fn: "HPagedSlice"}, {Pkg: "ecs", Fn: "HC01_IDMap", W: 4}, {Pkg: "ecs", Fn: "HC01_IDMap", W: 4, Tags: "tiny"},
+		Harnesses: []H{{Pkg: "ecs", Fn: "HC01_Step"}, {Pkg: "ecs", Fn: "HC01_Step", Tags: "tiny", Tier: "thorough"}, {Pkg: "ecs", Fn: "HC08_Batch"}, {Pkg: "ecs", Fn: "HC01_TwoSmall"}, {Pkg: "ecs", Fn: "HDeep"}, {Pkg: "ecs", Fn: "HDeep", Tags: "tiny"}, {Pkg: "ecs", Fn: "HManyTables"}, {Pkg: "ecs", Fn: "HPagedSlice"}, {Pkg: "ecs", Fn: "HC01_IDMap", W: 4}, {Pkg: "ecs", Fn: "HC01_IDMap", W: 4, Tags: "tiny"}, {Pkg: "ecs", Fn: "HBig", W: 4}, {Pkg: "ecs", Fn: "HBig", W: 4, Tags: "tiny"},
 			{Pkg: "ecs", Fn: "HC01_TwoSmall", Tags: "tiny", Tier: "thorough"}, {Pkg: "ecs", Fn: "HC01_Two", Tier: "thorough", Minutes: 60}},
 		Conform: stdConform,
 		Bounds:  "8 scripted prefixes (fresh, two tables, mixed sizes incl. zero-sized, two relation parents, dead target, retired table, recycled ids depth 3, two relation types) x 1 symbolic operation out of 11 kinds with every legal argument choice (entity, add/remove subsets of 6 component types, target) x 3 configurations (quick) / 6 (thorough: all 4 ID profiles, capacity increments 1..3, relation increments 1..2); quick also runs every pair of two operations from a reduced-argument set of 6 kinds (create with values, add / remove one component, child with target, RemoveEntity, Relations.Set) on every prefix (capacity increment 1; thorough: 1..2, both builds); HManyTables / HPagedSlice: 48 component-set tables and 36 relation tables in one node (beyond the 32-element pages of the table storage) with symbolic payloads, followed by one removal / retarget / batch removal of the relation / death of parents; paged storage lemmas for 1..65 elements with symbolic index; HDeep: every history of 3 (thorough 4) operations from an EMPTY world out of 10 reduced-argument kinds (create plain / with values / child with target, RemoveEntity, retarget, add/remove a component, Reset, Batch.RemoveEntities by mask / relation filter, batch SetRelation, batch add/remove of a component incl. Q variants) with a registered filter watching, 2 ID profiles x 2 capacity increments; thorough adds pairs (any operation with every legal argument, then a reduced-argument operation) on 3 prefixes with ids crossing the 16-id chunk, and the tiny build of the one-step harnesses; payload words fully symbolic; at most 10 entities",
-		Outside: "histories longer than prefix+2 operations; more than 10 entities; component types other than the 6 of the universe; capacity increments > 3",
+		Outside: "histories longer than prefix+2 operations; more than 10 entities in the symbolic harnesses (HManyTables: 100 entities / 84 tables, HBig: one scripted history with 300 entities in one table, ids above 255 as targets, 20 ids per call, 70 registered filters, capacity increments 1 / 7 / 128); more than 65535 entities (a 16-bit narrowing of entity counts or rows would not be seen); component types other than the 6 of the universe; capacity increments > 3 elsewhere",
 	},
 	{
 		ID: "C02",
 		Harnesses: []H{{Pkg: "ecs", Fn: "HC02_PoolGet"}, {Pkg: "ecs", Fn: "HC02_PoolRecycle"}, {Pkg: "ecs", Fn: "HC02_PoolRecycleWrap", NoSample: true}, {Pkg: "ecs", Fn: "HC02_IntPool", W: 4},
-			{Pkg: "ecs", Fn: "HC02_World"}, {Pkg: "ecs", Fn: "HC02_WorldRel"}, {Pkg: "ecs", Fn: "HC02_World", Tags: "tiny", Tier: "thorough"}},
+			{Pkg: "ecs", Fn: "HC02_World"}, {Pkg: "ecs", Fn: "HC02_WorldRel"}, {Pkg: "ecs", Fn: "HBig", W: 4}, {Pkg: "ecs", Fn: "HC02_World", Tags: "tiny", Tier: "thorough"}},
 		Conform: stdConform,
 		Bounds:  "(a) entityPool.Get/Recycle one-step lemmas from an arbitrary well-formed pool: up to 6 slots, every free-list shape, fully symbolic 32-bit generations (bounded claim: generations < 2^32-1; the unbounded variant HC02_PoolRecycleWrap exposes the wrap-around, a known finding), two ghost handles; intPool histories to depth 6; (b) world level: 3 prefixes (fresh / populated / free-list depth 3 with mixed generations) x 2 (thorough 3) operations out of NewEntity, NewBatch/NewBatchQ (symbolic count 1..4), RemoveEntity, Batch.RemoveEntities, Reset, DumpEntities+Reset+LoadEntities; 3 configurations; HC02_WorldRel: the same on a world with relation tables (zero target, alive or dead target, two nodes) so that Reset and filter removals meet every kind of table",
 		Outside: "pools with more than 6 slots in the lemmas (the code is uniform in the slot count); generation wrap-around after 2^32 recycles of one id (known finding); more than 10 entities at world level",
